@@ -253,8 +253,20 @@ def c05_pair(h, ga, gd):
 def c05(D, h, pairs=None):
     bad = []
     allp, gs = lineage_pairs(h)
+    # "every gene of the descendant genome": for a species these are the genes the file declares for it (r14-C05b: genes skipped
+    # from the genome's list are placed nowhere while the comparison's own numbers still add up)
+    decl = {}
+    loaded_ = set(h.get_dict_extant_genes())        # (a filtered analysis holds the selected genes only)
+    for n_, gs_ in D.species:
+        decl.setdefault(n_, []).extend(g_ for g_, _ in gs_ if g_ in loaded_)
     for a, d in (pairs if pairs is not None else allp):
         bad += c05_pair(h, gs[a], gs[d])
+        if not gen.sub(D.T, d)[1] and gen.sub(D.T, d)[0] in decl:
+            v = h.compare_genomes_vertically(gs[a], gs[d])
+            placed = sorted([x.unique_id for x in v.get_gained()] + [x.unique_id for x in v.get_retained().values()] +
+                            [x.unique_id for xs in v.get_duplicated().values() for x in xs])
+            if placed != sorted(decl[gen.sub(D.T, d)[0]]):
+                bad.append('comparison %s>%s places the genes %s, the species declares %s' % (taxS(a), taxS(d), placed[:8], sorted(decl[gen.sub(D.T, d)[0]])[:8]))
     return bad
 
 # ---------------------------------------------------------------------------------------- C06
